@@ -71,6 +71,15 @@ def _tgt(o, t, relative, with_z):
     return v if with_z else v[:2]
 
 
+def _zero_one(rng, o, t, scale):
+    """Set X or Y of a free target to exactly 0.0 when the start is close enough to that axis."""
+    ks = [k for k in (0, 1) if abs(o[k]) <= 2 * scale]
+    if not ks:
+        return t
+    k = rng.choice(ks)
+    return tuple(0.0 if i == k else v for i, v in enumerate(t))
+
+
 def shape_request(rng, o, relative, scale=20.0, kinds=None, grid=None):
     """Draw one valid tracer request starting at absolute point o=(x,y,z)."""
     kinds = kinds or ["arc", "arc_radius", "circle", "spline", "helix",
@@ -79,6 +88,9 @@ def shape_request(rng, o, relative, scale=20.0, kinds=None, grid=None):
     q = (lambda v: round(v * grid) / grid) if grid else (lambda v: v)
     with_z = rng.random() < 0.5
     dz = q(rng.uniform(-scale / 2, scale / 2)) if with_z else 0.0
+    if with_z and rng.random() < 0.15:
+        dz = -o[2]          # target Z exactly 0 (a falsy coordinate that is nevertheless a request)
+    zero_xy = rng.random() < 0.12   # same for X or Y where the target is free
     meta = {"kind": kind, "with_z": with_z}
 
     if kind in ("arc", "circle", "helix"):
@@ -112,6 +124,8 @@ def shape_request(rng, o, relative, scale=20.0, kinds=None, grid=None):
         d = rng.uniform(0.2, 1.5) * scale
         a = rng.uniform(-math.pi, math.pi)
         t = (q(o[0] + d * math.cos(a)), q(o[1] + d * math.sin(a)), o[2] + dz)
+        if zero_xy:
+            t = _zero_one(rng, o, t, scale)
         dist = math.hypot(t[0] - o[0], t[1] - o[1])
         if dist < 1e-3:
             t = (o[0] + 1.0, o[1], t[2])
@@ -126,6 +140,10 @@ def shape_request(rng, o, relative, scale=20.0, kinds=None, grid=None):
         dz = q(rng.uniform(0.5, 1.0) * scale * rng.choice([-1, 1])) if kind == "thread" else dz
         with_z = True if kind == "thread" else with_z
         t = (q(o[0] + d * math.cos(a)), q(o[1] + d * math.sin(a)), o[2] + dz)
+        if zero_xy:
+            t2 = _zero_one(rng, o, t, scale)
+            if math.hypot(t2[0] - o[0], t2[1] - o[1]) > 0.1 * scale:
+                t = t2
         meta.update(target_abs=t, with_z=with_z)
         if kind == "thread":
             pitch = abs(dz) / rng.choice([0.55, 1.3, 2.4, 3.5, 6.5])   # never an integer ratio: floor() is discontinuous there
@@ -144,8 +162,21 @@ def shape_request(rng, o, relative, scale=20.0, kinds=None, grid=None):
                     q(rng.uniform(0.3, 1.0) * scale * rng.choice([-1, 1])),
                     q(rng.uniform(-0.3, 0.3) * scale) if with_z else 0.0)
             nxt = (cur[0] + step[0], cur[1] + step[1], cur[2] + step[2])
+            if rng.random() < 0.08:
+                k = rng.randrange(3 if with_z else 2)
+                if abs(nxt[k]) <= 2 * scale:
+                    nxt = tuple(0.0 if i == k else v for i, v in enumerate(nxt))
             pts.append(nxt)
             cur = nxt
+        # closed loops / self-crossing paths: revisit the start or an earlier control point
+        # (never as the immediate predecessor, which the API treats as a duplicate)
+        r = rng.random()
+        if len(pts) >= 3 and r < 0.2:
+            pts[-1] = tuple(o)
+        elif len(pts) >= 3 and r < 0.3:
+            pts.append(pts[0])
+        elif len(pts) >= 4 and r < 0.4:
+            pts[-1] = pts[1]
         if relative:
             prev = o
             targets = []
